@@ -15,6 +15,7 @@ import itertools
 import json
 import math
 import os
+import signal
 import subprocess
 import sys
 
@@ -542,8 +543,14 @@ def _run_child(labels, seed):
     env = dict(os.environ)
     env["PYTHONHASHSEED"] = str(seed)
     code = "import sys; sys.path.insert(0, %r); from props import C10; C10._child_main()" % core.VERIF
-    r = subprocess.run([sys.executable, "-W", "ignore", "-c", code], input=json.dumps(labels), env=env,
-                       cwd=core.VERIF, capture_output=True, text=True)
+    # starting an interpreter is harness work, not an execution of the code under test: the per-call watchdog is
+    # disarmed while waiting and replaced by a generous timeout that surfaces as a harness error, never a verdict
+    signal.setitimer(signal.ITIMER_REAL, 0)
+    try:
+        r = subprocess.run([sys.executable, "-W", "ignore", "-c", code], input=json.dumps(labels), env=env,
+                           cwd=core.VERIF, capture_output=True, text=True, timeout=900)
+    except subprocess.TimeoutExpired:
+        raise core.HarnessError("hash-seed child did not finish within 900 s")
     if r.returncode != 0:
         raise core.HarnessError("hash-seed child failed: " + r.stderr[-2000:])
     return json.loads(r.stdout.strip().splitlines()[-1])
